@@ -57,3 +57,26 @@ Lemma C01_enable_old_refuted_b :
   | None => false
   end = true.
 Proof. vm_compute. reflexivity. Qed.
+
+(* The premise "a port is disabled at rest" of C01_convergence is necessary, and the code really violates the property without
+   it (known finding): p1 = $p0 is disabled while its own write is in flight, skipped by the refreshing pass, and enabled again
+   during a pass after its turn; the forced evaluation then compares with a stale last read value. Model of the CURRENT code. *)
+Definition witness_disable_busy : list (event Z expr) :=
+  [SetExpr 1%nat e_follow;
+   PassBegin; PassRead 0%nat; PassRead 1%nat; PassEnd; Eval 1%nat;
+   SourceSet 0%nat (Some 2);
+   PassBegin; PassRead 0%nat; PassRead 1%nat; PassEnd; Eval 1%nat;            (* write of 2 submitted *)
+   Disable 1%nat;                                                              (* not at rest: the write is in flight *)
+   WriteEnd 1%nat;
+   PassBegin; PassRead 0%nat; PassSkip 1%nat; PassEnd;                         (* the refreshing pass skips the disabled port *)
+   SourceSet 0%nat (Some 1);
+   PassBegin; PassRead 0%nat; PassSkip 1%nat; Enable 1%nat; PassEnd;           (* enabled after its turn: forced evaluation pushed *)
+   Eval 1%nat;                                                                 (* 1 = stale last read value: no write *)
+   PassBegin; PassRead 0%nat; PassRead 1%nat; PassEnd].
+
+Lemma C01_disable_busy_refuted_b :
+  match hrun true true [0%nat; 1%nat] (init [Some 1; Some 1]) witness_disable_busy with
+  | Some s => quiescent_b s && negb (follows_b s 1%nat)
+  | None => false
+  end = true.
+Proof. vm_compute. reflexivity. Qed.
